@@ -6,5 +6,7 @@ CONSTANTS
   Vals = {1}
   Peers <- P2
   MaxOps = 4
+  AliasVal = 0
+  AliasKey <- AK
   HistOn = FALSE
 INVARIANTS StoredIsTarget DoneIffComplete RequestsSane Closed PoolsSane NoStall PackIsOutstanding
